@@ -23,6 +23,9 @@ def _reexec():
 
 def main():
     _reexec()
+    import warnings
+    warnings.filterwarnings("ignore")
+    os.environ.setdefault("PYTHONWARNINGS", "ignore")
     os.environ.setdefault("TQDM_DISABLE", "1")
     os.environ.setdefault("OMP_NUM_THREADS", "1")
     os.environ.setdefault("OPENBLAS_NUM_THREADS", "1")
